@@ -257,11 +257,30 @@ def finish(report: Report, seed: int) -> int:
     return 0
 
 
+def selftest(report: Report):
+    """Thorough tier: run this property's self-test cases (hand-made mutants, behaviour-preserving twins and the seeded
+    changes of the sub-agent rounds) on scratch copies of /repo/gapic. A mutant that stays silent or a twin that fires is a
+    defect of the checker: analysis error, never a violation of the property."""
+    import subprocess
+    r = subprocess.run([os.path.join(VERIF, "tools", "selftest.py"), "--prop", report.pid, "--seeds", "--jobs", "8"],
+                       cwd=VERIF, capture_output=True, text=True)
+    last = [l for l in r.stdout.strip().split("\n") if l.startswith("{")]
+    summary = json.loads(last[-1]) if last else {"cases": 0, "failed": ["no output"]}
+    report.set("selftest", summary)
+    rule = report.rule("SELFTEST", "checker self-test: every mutant / seeded change of this property fires, every twin stays silent", floor=1)
+    rule.instance(summary, n=max(summary.get("cases", 0), 0))
+    rule.ok(summary.get("cases", 0))
+    if r.returncode != 0 or summary.get("failed"):
+        raise AnalysisError("SELFTEST", "self-test corpus", f"misbehaving cases: {summary.get('failed')}")
+
+
 def run_property(pid: str, tier: str, fn) -> int:
     seed = int(os.environ.get("VERIF_SEED", "0") or 0)
     report = Report(pid, tier)
     try:
         fn(report)
+        if tier == "thorough" and not os.environ.get("VERIF_REPO") and not os.environ.get("VERIF_NO_SELFTEST"):
+            selftest(report)
     except AnalysisError as e:
         print(f"ANALYSIS-ERROR property={pid} {e}")
         try:
